@@ -18,6 +18,7 @@ typedef struct {
 	ZSTD_CStream *cstrm;
 	ZSTD_DStream *dstrm;
 	bool compress;
+	bool frame_done;
 } xfrm_zstd_t;
 
 static const ZSTD_EndDirective zstd_action[] = {
@@ -39,7 +40,8 @@ static int process_data(xfrm_stream_t *stream, const void *in,
 	if (flush_mode < 0 || flush_mode >= XFRM_STREAM_FLUSH_COUNT)
 		flush_mode = XFRM_STREAM_FLUSH_NONE;
 
-	while (in_size > 0 && out_size > 0) {
+	while ((in_size > 0 || flush_mode == XFRM_STREAM_FLUSH_FULL) &&
+	       out_size > 0) {
 		memset(&in_desc, 0, sizeof(in_desc));
 		in_desc.src = in;
 		in_desc.size = in_size;
@@ -67,10 +69,22 @@ static int process_data(xfrm_stream_t *stream, const void *in,
 		out = (char *)out + out_desc.pos;
 		out_size -= out_desc.pos;
 		*out_written += out_desc.pos;
+
+		if (in_desc.pos == 0 && out_desc.pos == 0)
+			break;
+
+		/* 0: the frame is completely decoded / written and flushed */
+		zstd->frame_done = (ret == 0) &&
+			(!zstd->compress ||
+			 flush_mode == XFRM_STREAM_FLUSH_FULL);
+
+		/* do not let the compressor start another, empty frame */
+		if (zstd->compress && zstd->frame_done)
+			break;
 	}
 
 	if (flush_mode != XFRM_STREAM_FLUSH_NONE) {
-		if (in_size == 0)
+		if (in_size == 0 && zstd->frame_done)
 			return XFRM_STREAM_END;
 	}
 
@@ -116,6 +130,7 @@ static xfrm_stream_t *stream_create(const compressor_config_t *cfg,
 	}
 
 	zstd->compress = compress;
+	zstd->frame_done = !compress;
 	strm->process_data = process_data;
 	sqfs_object_init(zstd, destroy, NULL);
 	return strm;
